@@ -89,6 +89,10 @@ def rstep (r : RSt) (toks : List String) : RSt × String :=
   | ["sv_iter"] => obs r (iterFrom W r.a 0) fmtNatList
   | ["sv_rev_iter"] => obs r (revIterFrom W r.a r.a.len) fmtNatList
   | ["sv_eq"] => obs r (eq W r.a r.b) fmtBool
+  -- the atomic view of the borrowed view and back (the `From` glue between `BitFieldVec<W, &[W]>` and
+  -- `AtomicBitFieldVec<W, &[W::AtomicType]>`): length, width and contents are unchanged
+  | ["sv_atomic"] => obs r (iterFrom W r.a 0)
+      (fun l => s!"{r.a.len} {r.a.bw} {fmtNatList l} {r.a.len} {r.a.bw} {fmtNatList l}")
   | ["eq"] => obs r (eq W r.a r.b) fmtBool
   | ["clone"] => reply { r with b := r.a } "ok"
   | ["swapab"] => reply { r with a := r.b, b := r.a } "ok"
